@@ -770,6 +770,26 @@ def run_c14(tier_: str) -> int:
                     ok("class-header==module-header")
             elif hasattr(cls, "__api_key__") or hasattr(cls, "__header_schema__"):
                 res.violation(f"spurious-payload-attr:{cp}", f"{cp}: header/data class carries payload attributes", {"class": cp})
+        # every struct class the module *uses* (reachable through field types from its top-level class) must be one of the module's own
+        # classes, and no foreign entity class may be bound in its namespace
+        own = set(m.classes)
+        try:
+            reach = [sp.cls for sp in describe.all_struct_specs(describe.spec_from_class(top))]
+        except describe.DescribeError:
+            reach = []
+        for cls in reach:
+            res.count("reachable_classes")
+            if cls not in own:
+                res.violation(f"foreign-class-used:{m.name}:{cls.__name__}",
+                              f"{m.name}: {top.__name__} uses {walk.class_path(cls)} (version {int(getattr(cls, '__version__', -1))}), which is not defined in this version module",
+                              {"module": m.name, "class": walk.class_path(cls)})
+        for k, v in vars(m.module).items():
+            if isinstance(v, type) and dataclasses.is_dataclass(v) and v.__module__ != m.name and v.__module__.startswith("kio.schema.") \
+                    and not v.__module__.startswith(("kio.schema.request_header.", "kio.schema.response_header.")):
+                res.violation(f"foreign-class-bound:{m.name}:{k}", f"{m.name} binds the entity class {walk.class_path(v)} of another module as {k}", {"module": m.name, "name": k})
+        unused = [c.__name__ for c in own if c not in reach]
+        if unused:
+            res.violation(f"unused-class:{m.name}", f"{m.name} defines classes that its top-level class never reaches: {unused}", {"module": m.name, "classes": unused})
         if m.type in ("request", "response"):
             key_of_api.setdefault(m.api, set()).add(int(top.__api_key__))
     table = load_api_table()
